@@ -86,6 +86,21 @@ class Opaque:
 
 
 @dataclass(frozen=True)
+class Sym:
+    """A symbolic expression built from opaque values: attribute loads, calls, external functions."""
+
+    op: str
+    args: tuple = ()
+
+    def __repr__(self) -> str:
+        if self.op.startswith('.'):
+            return f'{self.args[0]!r}{self.op}'
+        if self.op == 'call':
+            return f'{self.args[0]!r}(' + ', '.join(repr(x) for x in self.args[1:]) + ')'
+        return f'{self.op}(' + ', '.join(repr(x) for x in self.args) + ')'
+
+
+@dataclass(frozen=True)
 class Promoted:
     """value converted to the common dtype of `group` (names of the values promoted together)."""
 
@@ -304,7 +319,7 @@ _TYPE_NAMES = {'int': int, 'tuple': tuple, 'list': list, 'str': str, 'bool': boo
 
 
 def _concrete(v: Any) -> bool:
-    if isinstance(v, (AxArr, Flat, Cat, DiagOf, Obj, Func, Ref, ClassRef, _Unk, Opaque, Promoted, Built)):
+    if isinstance(v, (AxArr, Flat, Cat, DiagOf, Obj, Func, Ref, ClassRef, _Unk, Opaque, Promoted, Built, Sym)):
         return False
     if isinstance(v, (tuple, list, set, frozenset)):
         return all(_concrete(x) for x in v)
@@ -336,6 +351,8 @@ class Interp:
         self.budget = budget
         self.steps = 0
         self.degraded: list[str] = []  # calls whose interpretation was abandoned (their result is UNK)
+        self.symbolic = False  # attribute loads / calls on opaque values build Sym expressions instead of UNK
+        self.summaries: dict = {}  # id(FunctionDef) -> callable(args, kwargs) used instead of interpreting that function
         self.watch_constructors: set[str] = set()  # qualified class names whose construction is recorded, not followed
         self.globals_override: dict = {}  # (module name, identifier) -> value of a module-level object built by the caller
         self.depth = 0
@@ -365,6 +382,8 @@ class Interp:
     def call_function(self, f: Func, args: list, kwargs: dict) -> Any:
         self._tick()
         node = f.node
+        if id(node) in self.summaries:
+            return self.summaries[id(node)](([f.self_obj] if f.self_obj is not None else []) + list(args), kwargs)
         a = node.args
         env = Env(f.env.module, f.env)
         params = [p.arg for p in a.posonlyargs + a.args]
@@ -425,6 +444,8 @@ class Interp:
             except Undecided as e:
                 self.degraded.append(f'{getattr(f.node, "name", "<lambda>")}: {e}')
                 return UNK
+        if isinstance(f, Sym) and self.symbolic:
+            return Sym('call', (f,) + tuple(args) + tuple(v for _, v in sorted(kwargs.items())))
         if isinstance(f, ClassRef) and f.cls.qual in self.watch_constructors:
             return Built(f.cls, tuple(args), tuple(sorted(kwargs.items())))
         if isinstance(f, ClassRef):
@@ -580,6 +601,8 @@ class Interp:
             return operator.itemgetter(*args)
         if path == 'itertools.chain' and all(_concrete(a) for a in args):
             return list(itertools.chain(*args))
+        if self.symbolic and any(isinstance(x, (Opaque, Sym)) for x in list(args) + list(kwargs.values())) and not path.startswith('furax.'):
+            return Sym(path, tuple(args) + tuple(v for _, v in sorted(kwargs.items())))
         # in-package function: interpret its definition
         d = self.world.lookup(path) if path.startswith('furax.') else None
         if isinstance(d, ast.FunctionDef):
@@ -624,6 +647,8 @@ class Interp:
     def get_attr(self, v: Any, name: str, node: ast.AST | None) -> Any:
         if v is UNK:
             return UNK
+        if isinstance(v, (Opaque, Sym)) and self.symbolic:
+            return Sym('.' + name, (v,))
         if isinstance(v, AxArr):
             return self.attr_of_array(v, name)
         if isinstance(v, Flat):
